@@ -57,7 +57,7 @@ def gen_plan(rng, tier: str, idx: int) -> dict:
         elif r < 0.8:
             ops.append(["roundtrip", rng.choice(ROUNDTRIPS), rng.randrange(10**6)])
         elif r < 0.93:
-            ops.append(["mutate", rng.choice(["node", "calc", "dist", "var"]), rng.randrange(10**6)])
+            ops.append(["mutate", rng.choice(["node", "calc", "dist", "var", "var", "foreign"]), rng.randrange(10**6)])
         elif r < 0.97:
             ops.append(["invalid_build", rng.choice(INVALID)])
         else:
@@ -245,6 +245,13 @@ def try_mutation(model, kind, pick, V, counters):
         if not c:
             return
         target, mut = c[rng.randint(len(c))], DIST_MUTATORS[rng.randint(len(DIST_MUTATORS))]
+    elif kind == "foreign":
+        # a variable *outside* the model tries to take a Dist node that belongs to the model
+        c = [n for n in nodes if isinstance(n, Dist) and not n.name.startswith("_model")]
+        if not c:
+            return
+        bare = [n for n in c if n.var is None]
+        target, mut = (bare or c)[rng.randint(len(bare or c))], "adopted_by_foreign_var"
     else:
         c = list(model.vars.values())
         if not c:
@@ -280,6 +287,9 @@ def try_mutation(model, kind, pick, V, counters):
             target.dist_node = None
         elif mut == "transform":
             target.transform(tfb.Exp())
+        elif mut == "adopted_by_foreign_var":
+            w = lsl.Var(jnp.float32(0.5), Dist(tfd.Normal, loc=jnp.float32(0.0), scale=jnp.float32(1.0)), name="foreign_w")
+            w.dist_node = target
     except Exception as e:
         raised = e
     counters["fault.F6_mutation_attempts"] = counters.get("fault.F6_mutation_attempts", 0) + 1
